@@ -60,7 +60,7 @@ CHECKS.update({
 })
 
 CHECKS.update({
- "C09": ("metamorphic runtime monitor over the full 2^6 configuration cube x 3 marketing sets: self-match, separation, permutation, marketing parameters (+ Location forwarding), case swap, idempotence",
+ "C09": ("metamorphic runtime monitor over the full 2^6 configuration cube x 4 marketing sets: self-match, separation, permutation, marketing parameters (+ Location forwarding), case swap, idempotence",
          "No reference normaliser: the rule side and the request side of the real library must agree with each other. For every configuration and generated URL (reserved/unreserved punctuation, spaces, quotes, '+', %xx incl. invalid UTF-8, raw non-ASCII, characters the URI parser rejects; repeated keys, empty values, keys without '=', '&&', trailing '&', '?' alone) the monitor checks M1 self-match, M2 separation, M3 parameter permutation, M4 marketing parameters ignored and forwarded to the target iff configured, M5 ASCII case swap under the case flag, M6 idempotence (base URL, every variant, legacy wire format, Location after two re-normalisations), M1' the same literal rule declaring an unused marker answers identically, M7 forwarding of skipped marketing parameters to a catch-all target whose '?' comes from the captured text; every relation of a case is evaluated even after one failed. Failures are known findings only for three exact signatures computed in the harness (normalisation skipped + non-canonical request; rule query containing a configured marketing key; sort-before-lowercase).",
          "The http crate's URI parser and a harness-side form decoder/canonical query are used only for generation and for the known-finding signatures.",
          "5/C09"),
@@ -111,20 +111,22 @@ CHECKS.update({
 
 # additions of the round-6 / round-7 sessions: (technique suffix, level text suffix, level note replacement or None)
 APPEND = {
- "C03": ("", " Filter targets include raw-text elements (style, script, noscript); a chunk boundary inside a CDATA section counts as the known finding only when it falls inside the opener `<![CDATA[` itself (after the opener the unchanged library holds the section back as text).", None),
- "C04": ("; large target elements with the answer known by construction", " Target elements of 0.3-2.5 MB under replace / selector-guarded append and prepend (buffered) and plain append (streamed), delivered whole and in 16 KiB / 64 KiB / 1 MB chunks, are compared byte for byte with the input carrying the one edit.", None),
+ "C03": ("", " Filter targets include raw-text elements (style, script, noscript); a chunk boundary inside a CDATA section counts as the known finding only when it falls inside the opener `<![CDATA[` itself (after the opener the unchanged library holds the section back as text). One token of 100 KB on the filter's path (huge attribute value, text holding a literal '<') is delivered in 4-70 KB chunks; two documents one after the other are part of the corpus.", None),
+ "C04": ("; large target elements with the answer known by construction", " Target elements of 0.3-2.5 MB under replace / selector-guarded append and prepend (buffered) and plain append (streamed), delivered whole and in 16 KiB / 64 KiB / 1 MB chunks, are compared byte for byte with the input carrying the one edit. Text-only chains on plain bodies wrongly declared gzip / deflate must pass the body through (known finding C04-F4D: header bytes consumed by the decoder in earlier, smaller chunks are dropped).", None),
  "C07": ("; the panic monitor is run a second time with library and monitors built with integer-overflow checks (-C overflow-checks=on)", " The same monitor is then run on another PRNG stream from a second build of library and monitors with rustc's integer-overflow checks switched on (30 % of the budget in the quick tier, all of it in the thorough tier): an arithmetic overflow that wraps silently in the shipping profile panics there.",
          "Shipping (release) profile plus a release build with integer-overflow checks; the dev-profile recursion depth F10 is not exercised; termination is bounded by logical step bounds owned by C16 (tokens) and C19 (hops) plus a wall-clock watchdog whose firing is inconclusive."),
- "C10": ("", " Marker expressions include top-level alternations (of groups and of bare branches); the HTML body filter's second value (inner_value, explicit or defaulted) is read from the serialised action and must carry the same substitutions.", None),
- "C11": ("", " Histories include single-rule replacement (an earlier version with several methods, remove(id), insert), emptying the whole router (one by one or in one batch) and refilling it, and pattern rules with upper-case literal text under the case policy.", None),
- "C12": ("", " A legal but heavy marker expression (compiled program of a few MiB) is looked up before and after warm-up.", None),
+ "C10": (" Round 7 added 21-48 rules of few ranks with ids of mixed shapes handed over in shuffled orders, and captured texts that spell marker references.", " Marker expressions include top-level alternations (of groups and of bare branches); the HTML body filter's second value (inner_value, explicit or defaulted) is read from the serialised action and must carry the same substitutions. Another request (same URL and host, other header values) may be served by the same router first; captured values may contain '$' followed by a word character.", None),
+ "C11": ("", " Histories include single-rule replacement (an earlier version with several methods, remove(id), insert), emptying the whole router (one by one or in one batch) and refilling it, and pattern rules with upper-case literal text under the case policy. Rules may carry time-of-day / weekday triggers; a change-set concerning none of the rules followed by single removals and re-insertions is one of the histories.", None),
+ "C12": ("", " A legal but heavy marker expression (compiled program of a few MiB) is looked up before and after warm-up. ASCII-only patterns with Perl classes are looked up with non-ASCII text.", None),
  "C13": ("; actions merged from 2-4 rules vs the concatenation of their filter lists in application order", " Actions built by Action::from_routes_rule from 2-4 rules with distinct ranks (handed over in scrambled order) must filter like the concatenation of the rules' filter lists in application order.", None),
- "C14": ("; gzip producers that write several members and optional header fields", " gzip streams made of several members (RFC 1952 section 2.2, incl. an empty last member) and with FNAME / FCOMMENT / FEXTRA fields are part of the workload (this found C14-MULTIMEMBER, repaired in ae2381f); the output is decoded with a multi-member decoder that rejects trailing garbage.", None),
- "C15": ("", " Quoted attribute values containing '>' and legacy inline scripts with a nested script element (script-data double-escaped state) whose strings name the chain element are generated next to the targets.", None),
+ "C14": ("; gzip producers that write several members and optional header fields", " gzip streams made of several members (RFC 1952 section 2.2, incl. an empty last member) and with FNAME / FCOMMENT / FEXTRA fields are part of the workload (this found C14-MULTIMEMBER, repaired in ae2381f); the output is decoded with a multi-member decoder that rejects trailing garbage. An HTML filter in front of replace_text and zlib streams announcing a window below 32 KiB (when the body fits) are part of the workload.", None),
+ "C15": ("", " Quoted attribute values containing '>' and legacy inline scripts with a nested script element (script-data double-escaped state) whose strings name the chain element are generated next to the targets. Removal (replace by the empty value) and tab / LF / CRLF separators inside tags are generated.", None),
  "C16": ("; tags assembled part by part with an invalid byte in at most one part; second run with integer-overflow checks", " Tags are also assembled from a name and attributes known by construction with an invalid byte planted in at most one part: every other part must still be returned with the expected text (the accessor clause speaks of the bytes of that name / attribute). The whole monitor is run a second time from a build of library and monitors with rustc's integer-overflow checks switched on.", None),
  "C17": ("", " Rules carry deterministic sampling (none / 0 / 100) and requests an explicit sampling decision or none; a third of the routers have the marketing flag off (so configurations rewriting nothing occur) and requests include URLs that the router's own normalisation rewrites (marketing parameter, unsorted query, space, non-ASCII).", None),
- "C18": ("", " The three spellings of 'no trusted proxies configured' (NULL object, object created from NULL, from the empty list) must derive the same client address from the same peer and forwarding headers.", None),
- "C19": ("", " One of the project hosts is an IP literal in a fifth of the absolute cases; rules combining an ip range with an excluded method list are generated.", None),
+ "C18": ("", " The three spellings of 'no trusted proxies configured' (NULL object, object created from NULL, from the empty list) must derive the same client address from the same peer and forwarding headers. The log line built through the C entry point is compared with Log::from_proxy on the same request, headers (repeated Location / Content-Type lines, empty values) and action.", None),
+ "C19": ("", " One of the project hosts is an IP literal in a fifth of the absolute cases; rules combining an ip range with an excluded method list are generated. Trailing-slash variants of the chain paths are generated.", None),
+ "C06": ("", " Request header values that JSON has to escape (quoted strings, backslashes, control characters) and empty values are part of the request workload.", None),
+ "C09": ("", " One of the four marketing-parameter sets has a name that is not all lower case (hsCtaTracking).", None),
  "C01": ("", " Marker names that are strict prefixes of one another (n / nn, sub / subx) occur in path and host patterns.", None),
 }
 
